@@ -24,14 +24,17 @@ func init() {
 const prelude = "(set 'x 42) "
 
 const (
-	hList    = "(lambda (c &rest d) (list 'handled c (map 'list (lambda (e) (if (string? e) 'str e)) d)))"
+	// message strings written by the evaluator are not compared ('str); a string the PROGRAM put in the error's data must
+	// arrive exactly as written ('user-string), whatever characters it contains
+	userStr  = `"100%d full %s %% done"`
+	hList    = "(lambda (c &rest d) (list 'handled c (map 'list (lambda (e) (if (string? e) (if (equal? e " + userStr + ") 'user-string 'str) e)) d)))"
 	hTwo     = "(lambda (c &rest d) (list 'h2 c))"
 	hRethrow = "(lambda (c &rest d) (debug-print 'rt c) (rethrow))"
 )
 
 var cons = []gen.Con{
 	{Name: "1", Arity: 0}, {Name: "DP", Arity: 0}, {Name: "E1", Arity: 0}, {Name: "E1x", Arity: 0}, {Name: "E1l", Arity: 0},
-	{Name: "E2", Arity: 0}, {Name: "EIP", Arity: 0}, {Name: "HP", Arity: 0}, {Name: "RT", Arity: 0}, {Name: "CAR", Arity: 0}, {Name: "UND", Arity: 0},
+	{Name: "E1s", Arity: 0}, {Name: "E1s2", Arity: 0}, {Name: "E2", Arity: 0}, {Name: "EIP", Arity: 0}, {Name: "HP", Arity: 0}, {Name: "RT", Arity: 0}, {Name: "CAR", Arity: 0}, {Name: "UND", Arity: 0},
 	{Name: "IE", Arity: 1}, {Name: "HBc", Arity: 1}, {Name: "HB1", Arity: 1}, {Name: "HBip", Arity: 1}, {Name: "HBe", Arity: 1},
 	{Name: "HBrt", Arity: 1}, {Name: "HB2", Arity: 1}, {Name: "HB2r", Arity: 1}, {Name: "HBbad", Arity: 1},
 	{Name: "HBhp", Arity: 1}, {Name: "HBhe", Arity: 1},
@@ -51,6 +54,10 @@ func render(t *gen.Tree) string {
 		return "(error 'c1 (car '(x)))"
 	case "E1l":
 		return "(error 'c1 (car '((+ 1 2))))"
+	case "E1s":
+		return "(error 'c1 " + userStr + ")"
+	case "E1s2":
+		return "(error 'c1 " + userStr + " 2)"
 	case "E2":
 		return "(error 'c2)"
 	case "EIP":
@@ -217,7 +224,7 @@ func run(r *core.Run) {
 	total := g.Total(size)
 	r.Bound("max_nodes", size)
 	r.Bound("terms", total)
-	r.Rule("every term of the condition grammar (11 leaves: value, marker, (error 'c1 ..) with plain / unquoted-symbol / unquoted-list data, (error 'c2), a lisp error NAMED internal-panic, a host panic, rethrow outside a handler, a builtin type error, an unbound symbol; 9 unary: ignore-errors and handler-bind with specifier condition / c1 / internal-panic / error / rethrowing handler / two bindings in both orders / a non-function handler; 7 binary: progn, 2-form ignore-errors, 2-form handler-bind bodies (catch-all and rethrowing), handler whose BODY is a term, handler EXPRESSION that evaluates a term, list) up to the node bound. Non-trivial = an error or host panic is raised somewhere in the term; distinct by source text")
+	r.Rule("every term of the condition grammar (13 leaves: value, marker, (error 'c1 ..) with plain / unquoted-symbol / unquoted-list data / a lone string containing percent signs / that string and a second datum, (error 'c2), a lisp error NAMED internal-panic, a host panic, rethrow outside a handler, a builtin type error, an unbound symbol; 9 unary: ignore-errors and handler-bind with specifier condition / c1 / internal-panic / error / rethrowing handler / two bindings in both orders / a non-function handler; 7 binary: progn, 2-form ignore-errors, 2-form handler-bind bodies (catch-all and rethrowing), handler whose BODY is a term, handler EXPRESSION that evaluates a term, list) up to the node bound. Non-trivial = an error or host panic is raised somewhere in the term; distinct by source text")
 	r.Assume("function values print as #<fun>; error messages are not compared, condition names are")
 	core.ParallelRange(r, total, nil, func(_ struct{}, i int64) {
 		t := g.At(size, i)
@@ -265,11 +272,11 @@ var hActions = []struct{ name, src string }{
 	{"other-caught", "(handler-bind ([condition " + hList + "]) (error 'c2 2))"},
 	{"other-caught-then-rt-caught", "(handler-bind ([condition (lambda (c2 &rest d2) (handler-bind ([condition " + hTwo + "]) (rethrow)))]) (error 'c2 2))"},
 	{"print", "(debug-print 'in-handler c)"},
-	{"value", "(list 'got c (map 'list (lambda (e) (if (string? e) 'str e)) d))"}, // message strings are not compared
+	{"value", "(list 'got c (map 'list (lambda (e) (if (string? e) (if (equal? e " + userStr + ") 'user-string 'str) e)) d))"}, // message strings are not compared
 	{"other-raised", "(error 'c3 3)"},
 }
 
-var hTriggers = []string{"(error 'c1 1 'a)", "(error 'c2)", "(car 1)", "undefined-sym"}
+var hTriggers = []string{"(error 'c1 1 'a)", "(error 'c1 " + userStr + ")", "(error 'c2)", "(car 1)", "undefined-sym"}
 
 var hOuters = []struct{ name, pre, post string }{
 	{"bare", "", ""},
